@@ -46,6 +46,10 @@ def main():
         elif k == 'write':
             a[act[1]] = act[2]
             outs.append([0])
+        elif k == 'grow':
+            n = len(a)           # element i holds i
+            a.append(np.arange(n, n + act[1], dtype='int64'))
+            outs.append([0])
         sys.stdout.write(json.dumps(dict(progress=len(outs))) + '\n')
         sys.stdout.flush()
     datafile = os.path.realpath(os.path.join(job['path'], 'arrayvalues.bin'))
